@@ -10,6 +10,7 @@ import ast
 import builtins
 import enum
 import time
+import os
 import types
 
 try:
@@ -205,7 +206,7 @@ class Path:
 
 class Engine:
     def __init__(self, contracts=None, inline=None, merge_calls=None, subst=None, package='armulator',
-                 query_timeout_ms=20000, max_paths=20000, loop_bound=64, logic='QF_UFBV'):
+                 query_timeout_ms=20000, max_paths=20000, loop_bound=64, logic='QF_UFBV', mul_uf=False):
         self.contracts = contracts or {}
         self.inline = set(inline or ())          # functions whose contract is NOT used (unit under test)
         self.merge_calls = set(merge_calls or ())
@@ -214,6 +215,9 @@ class Engine:
         self.solver = z3.SolverFor(logic)
         self.solver.set('timeout', query_timeout_ms)
         self.query_timeout_ms = query_timeout_ms
+        self.mul_uf = mul_uf                     # symbolic products as one uninterpreted function, refined on `sat`
+        self.mul_refine_timeout_ms = 60000
+        sym.MUL_UF[0] = mul_uf
         self.slow_timeout_ms = 300000          # conjunct-wise retry of an obligation the quick budget left open
         self.max_paths = max_paths
         self.loop_bound = loop_bound
@@ -467,11 +471,26 @@ class Engine:
             finally:
                 if timeout_ms:
                     self.solver.set('timeout', self.query_timeout_ms)
+            extra_defs = []
+            if r == z3.sat and sym.MUL_UF[0]:
+                # products were abstracted by an uninterpreted function: re-examine with their exact definitions
+                extra_defs = sym.mul_uf_definitions(self.path.pc + [c])
+                if extra_defs:
+                    if os.environ.get('VERIF_DEBUG'):
+                        print('REFINE', kind, label, len(extra_defs), 'defs', flush=True)
+                    self.solver.set('timeout', self.mul_refine_timeout_ms)
+                    try:
+                        r, m = self._check(z3.Not(c), *extra_defs)
+                    finally:
+                        self.solver.set('timeout', self.query_timeout_ms)
+                    ob.backend = 'z3+exact-products'
             if r == z3.unsat:
                 ob.status = 'proved'
             elif r == z3.sat:
                 ob.status = 'failed'
                 hints = getattr(self, 'small_model_hints', None)
+                if hints and extra_defs:
+                    hints = list(hints) + extra_defs
                 if hints:
                     r2, m2 = self._check(z3.Not(c), *hints)      # prefer a counterexample that can be replayed natively
                     if r2 == z3.sat:
